@@ -106,8 +106,15 @@ func sext(v uint64, w int) int64 {
 }
 
 // Ctx owns the hash-consing table. Not safe for concurrent use: one per worker.
+type tkey struct {
+	kind       Kind
+	w          int32
+	val        uint64
+	a0, a1, a2 int32
+}
+
 type Ctx struct {
-	tab    map[string]*Term
+	tab    map[tkey]*Term
 	nextID int
 	True   *Term
 	False  *Term
@@ -115,7 +122,7 @@ type Ctx struct {
 }
 
 func NewCtx() *Ctx {
-	c := &Ctx{tab: make(map[string]*Term), Vars: make(map[string]*Term)}
+	c := &Ctx{tab: make(map[tkey]*Term, 1024), Vars: make(map[string]*Term)}
 	c.False = c.mk(&Term{Kind: KConst, W: 0, Val: 0})
 	c.True = c.mk(&Term{Kind: KConst, W: 0, Val: 1})
 	return c
@@ -123,7 +130,7 @@ func NewCtx() *Ctx {
 
 // Reset drops all terms (used between paths to bound memory).
 func (c *Ctx) Reset() {
-	c.tab = make(map[string]*Term)
+	c.tab = make(map[tkey]*Term, 1024)
 	c.Vars = make(map[string]*Term)
 	c.nextID = 0
 	c.False = c.mk(&Term{Kind: KConst, W: 0, Val: 0})
@@ -131,21 +138,23 @@ func (c *Ctx) Reset() {
 }
 
 func (c *Ctx) mk(t *Term) *Term {
-	var sb strings.Builder
-	sb.WriteByte(byte(t.Kind) + 'A')
-	sb.WriteString(strconv.Itoa(t.W))
-	sb.WriteByte(':')
-	if t.Kind == KConst || t.Kind == KExtract {
-		sb.WriteString(strconv.FormatUint(t.Val, 16))
-	}
 	if t.Kind == KVar {
-		sb.WriteString(t.Name)
+		// variables are unique by name (see Var)
+		t.ID = c.nextID
+		c.nextID++
+		return t
 	}
-	for _, a := range t.Args {
-		sb.WriteByte(',')
-		sb.WriteString(strconv.Itoa(a.ID))
+	k := tkey{kind: t.Kind, w: int32(t.W), val: t.Val, a0: -1, a1: -1, a2: -1}
+	switch len(t.Args) {
+	case 3:
+		k.a2 = int32(t.Args[2].ID)
+		fallthrough
+	case 2:
+		k.a1 = int32(t.Args[1].ID)
+		fallthrough
+	case 1:
+		k.a0 = int32(t.Args[0].ID)
 	}
-	k := sb.String()
 	if old, ok := c.tab[k]; ok {
 		return old
 	}
